@@ -208,6 +208,7 @@ def main(argv=None):
     tier, seed = R.tier_and_seed(argv)
     rep = R.Report(PROP, tier, seed)
     exhaustive, sample, bounds = inputs(tier, seed)
+    rng2 = random.Random(seed + 7919)
     mp, bs = (4000, 120.0) if tier == "quick" else (20000, 600.0)
     budget = 150 if tier == "quick" else 3000
     mk = lambda d, algos: {"desc": d, "algos": algos, "max_paths": mp, "budget_s": bs}
@@ -216,6 +217,17 @@ def main(argv=None):
     res, skipped = R.run_sharded(worker, [mk(d, ["thl", "exh"]) for d in sample], budget)
     rep.add_results("sampled-larger", res, skipped, exhaustive=False)
     from checks import sr_common as SR
+    # deep species trees (caterpillars with 5-7 leaves): long loss chains; dup, hgt symbolic with spe = 0, floss = 1 keeps each input cheap
+    nd = 300 if tier == "quick" else 3000
+    deep = [D.random_deep_input(rng2, rng2.randint(3, 5 if tier == "quick" else 6), rng2.randint(5, 6 if tier == "quick" else 7)) for _ in range(nd)]
+    flags = {"opt", "valid", "empty"}
+    res, skipped = R.run_sharded(SR.generic_worker, [{"prop": PROP, "desc": d, "runs": SR.runs_for(["thl", "exh"], ["any"], flags, "dhs"),
+                                                      "max_paths": mp, "budget_s": bs} for d in deep], budget)
+    rep.add_results("deep species trees (dup, hgt symbolic; spe = 0, floss = 1)", res, skipped, exhaustive=False)
+    hist = [D.random_plain_input(rng2, rng2.randint(3, 4), rng2.randint(2, 4)) for _ in range(8 if tier == "quick" else 60)]
+    res, skipped = R.run_sharded(SR.generic_worker, [{"prop": PROP, "desc": d, "runs": SR.history_runs(["thl", "exh"], flags),
+                                                      "max_paths": mp, "budget_s": bs} for d in hist], budget)
+    rep.add_results("call history: the same solver called earlier in the same interpreter, then explored with four symbolic costs", res, skipped, exhaustive=False)
     rep.add_results("F-COHERENCE witness (outside the coherent region; concrete replay only)", [SR.coherence_witness_result(PROP)], 0, exhaustive=None)
     import superrec2.compute.reconciliation as m1, superrec2.compute.exhaustive as m2
     import superrec2.utils.dynamic_programming as m3, superrec2.model.reconciliation as m4
@@ -224,6 +236,9 @@ def main(argv=None):
         m1._compute_thl_try_duplication_transfer, m1._decode_thl_table, m2.generate_all,
         m2.reconcile_exhaustive, m3.Entry.update, m3.Entry.combine, m3.EntryProxy, m3.TableProxy,
         m4.ReconciliationOutput.node_event, m4.ReconciliationOutput._cost_rec)
+    bounds["deep"] = (f"{nd} seeded inputs with 3-{5 if tier == 'quick' else 6} object leaves on species trees with 5-{6 if tier == 'quick' else 7} leaves, 70% caterpillars "
+                      "(dup, hgt symbolic; spe = 0, floss = 1; thl + exh, any)")
+    bounds["call history"] = f"{len(hist)} seeded 3-4-leaf inputs explored after earlier concrete calls of the same solver in a fresh interpreter"
     rep.bounds = dict(bounds, costs="spe, dup, hgt, floss: all non-negative integers with spe <= dup + 2*floss (no upper bound); "
                       "second run with hgt = infinity.inf", policies="any, all", per_input_path_cap=mp)
     rep.assumptions = ["oracle (engine/oracles/recon.py) is the documented event model",
